@@ -55,6 +55,12 @@ def elem_loops(fn, root):
                 iv_src = fn.strip(fn.ch(v)[0])
                 if fn.k(iv_src) == "Subscript" and fn.canon(fn.ch(iv_src)[1], subst=False) == iv:
                     samples[fn.nodes[v]["name"]] = lin.poly(fn, fn.ch(iv_src)[0])
+        # the element may also be fetched by a plain assignment (`sample = src[i];`)
+        for s in paths.stores(fn, body):
+            if s["kind"] == "DeclRef" and s["op"] == "=" and s["rhs"] is not None:
+                iv_src = fn.strip(s["rhs"])
+                if fn.k(iv_src) == "Subscript" and fn.canon(fn.ch(iv_src)[1], subst=False) == iv:
+                    samples.setdefault(s["path"], lin.poly(fn, fn.ch(iv_src)[0]))
         for s in paths.stores(fn, body):
             if s["kind"] != "Subscript" or s["rhs"] is None or s["op"] != "=":
                 continue
